@@ -10,6 +10,8 @@ CONSTANTS
   LeafKind = "blobs"
   WithSemi = FALSE
   Radii = {2}
+  Margin = 1
+  ProbeOdd = FALSE
 INVARIANT RegionEnclosed
 INVARIANT ZoneConsistent
 INVARIANT BBoxCoversRegion
